@@ -92,7 +92,10 @@ def gate (toks : List String) : String :=
   let cands := Nsq.Gen.AdminRoutes.adminRoutes.filterMap (fun r =>
     (matchSegs r.segs path).map (fun ps => (r, ps)))
   match cands.find? (fun c => c.1.method == method) with
-  | none => if cands.isEmpty then "404 - - 0" else "405 - - 0"
+  | none =>
+    -- httprouter: no route for the path → 404; a route under another method → 405, except that an OPTIONS request
+    -- is answered by the router itself (`HandleOPTIONS`, 200 with an `Allow` header) — no handler runs in any case
+    if cands.isEmpty then "404 - - 0" else if method == "OPTIONS" then "200 - - 0" else "405 - - 0"
   | some (r, params) =>
     match lookupHandler Nsq.Gen.AdminRoutes.adminHandlers r.handler with
     | none => "0 - - 0"
